@@ -19,6 +19,7 @@ import (
 	"time"
 
 	"github.com/kercylan98/vivid"
+	"github.com/kercylan98/vivid/internal/actor"
 	"github.com/kercylan98/vivid/internal/cluster"
 	"github.com/kercylan98/vivid/internal/mailbox"
 	"github.com/kercylan98/vivid/internal/messages"
@@ -388,6 +389,18 @@ func decoders(withCodec bool) []decoder {
 			_, _, _, _, _, _, err := serialize.DecodeEnvelopWithRemoting(vc, d)
 			return err
 		}},
+		{"DecodeEnvelop+NewRef", func(d []byte) error {
+			// what System.HandleRemotingEnvelop does with a decoded envelope: rebuild the references
+			_, sa, sp, ra, rp, _, err := serialize.DecodeEnvelopWithRemoting(vc, d)
+			if err != nil {
+				return err
+			}
+			if _, err := actor.NewRef(sa, sp); err != nil {
+				return err
+			}
+			_, err = actor.NewRef(ra, rp)
+			return err
+		}},
 		{"Reader.ReadMessage", func(d []byte) error {
 			_, err := messages.NewReader(d).ReadMessage(mc)
 			return err
@@ -506,7 +519,7 @@ func TestC13DecodeMutations(t *testing.T) {
 				step = len(base) / 600
 			}
 			for i := 0; i < len(base); i += step {
-				for _, b := range []byte{0x00, 0x01, 0x7f, 0x80, 0xff, base[i] + 1, base[i] - 1} {
+				for _, b := range []byte{0x00, 0x01, 0x7f, 0x80, 0xff, base[i] + 1, base[i] - 1, ' ', '\t', '\n', '/', ':', '%', '@'} {
 					if b == base[i] {
 						continue
 					}
